@@ -96,6 +96,24 @@ TEMPLATES = [
     free3d("free3d", (None, None)),
     free3d("free3d-ihneg", IH_NEG),
     free3d("free3d-ihpos", IH_POS),
+    # position of an azimuth inside a station cluster (first / last / absent) with slope observations:
+    # gama-local scans the clusters for azimuths and slope observations to select its approximate-coordinate algorithms
+    dict(name="azi3d", dim=3, roles=[("A", "fix"), ("B", "fix"), ("P", "new")],
+         cands=[("azi", "A", "P", "first"), ("sd", "A", "P", None, None), ("za", "A", "P", None, None), ("azi", "A", "P", "last"),
+                ("azi", "B", "P", "first"), ("sd", "B", "P", None, None), ("za", "B", "P", None, None), ("dir", "A", "B"),
+                ("dir", "A", "P")],
+         pred=_noncol(("A", "B", "P")), zrule="steep"),
+    # chains of mechanisms: a levelling line Q-R-S that reaches a known height only through Q, whose
+    # height is trigonometric (zenith angles from A, B; xy of Q, R, S fixed) ...
+    dict(name="levtrig", dim=3, roles=[("A", "fix"), ("B", "fix"), ("Q", "newz"), ("R", "newz"), ("S", "newz")],
+         cands=[("za", "A", "Q", None, None), ("sd", "A", "Q", None, None), ("za", "B", "Q", None, None), ("dh", "Q", "R"),
+                ("dh", "R", "S"), ("dh", "S", "Q"), ("dh", "A", "S"), ("za", "S", "B", None, None)],
+         pred=_noncol(("A", "B", "Q")), zrule="chain"),
+    # ... or through a vector / a polar sight (Q fully unknown)
+    dict(name="levvec", dim=3, roles=[("A", "fix"), ("B", "fix"), ("Q", "new"), ("R", "newz"), ("S", "newz")],
+         cands=[("vec", "A", "Q"), ("dh", "Q", "R"), ("dh", "R", "S"), ("dh", "B", "S"), ("dir", "A", "B"), ("dir", "A", "Q"),
+                ("sd", "A", "Q", None, None), ("za", "A", "Q", None, None)],
+         pred=_noncol(("A", "B", "Q")), zrule="chain"),
     # tower geometry: the new point 320-330 m above the fixed ones, every sight has
     # dz/d >= 1.1 and most >= 1.5 (zenith angle <= 37 gon resp. >= 163 gon downwards):
     # the dh reduction of a slope distance (to_dh - from_dh) * cos z exceeds tol-abs
@@ -129,15 +147,17 @@ TPL = {t["name"]: t for t in TEMPLATES}
 
 # (template, number of placements) per tier
 TIERS = {
-    "quick": [("polar", 1), ("intersection", 1), ("resection", 1), ("levelling", 1), ("vectors1", 1),
-              ("polar3d", 1, 8), ("polar3d-ih", 1, 8), ("polar3d-ihneg", 1, 8), ("polar3d-ihpos", 1, 8),
-              ("free3d-ihneg", 1, 7), ("free3d-ihpos", 1, 7),
-              ("tower3d-ihneg", 1, 8), ("tower3d-ihpos", 1, 8), ("towerst-ihneg", 1, 7), ("towerst-ihpos", 1, 7), ("traverse", 1), ("trig3d", 1, 8), ("vecmix", 1, 6)],
-    "thorough": [("polar", 6), ("intersection", 4), ("resection", 4), ("traverse", 3), ("polar2", 2), ("coords", 2),
-                 ("levelling", 1), ("levelling3", 1), ("vectors", 1), ("vectors1", 1), ("polar3d", 2), ("polar3d-ih", 2),
+    "quick": [("polar", 1), ("intersection", 1), ("resection", 1, 7), ("levelling", 1), ("vectors1", 1, 5),
+              ("polar3d", 1, 8), ("polar3d-ih", 1, 8), ("polar3d-ihneg", 1, 8),
+              ("free3d-ihneg", 1, 7),
+              ("tower3d-ihneg", 1, 8), ("tower3d-ihpos", 1, 8), ("towerst-ihneg", 1, 7), ("towerst-ihpos", 1, 7), ("traverse", 1), ("trig3d", 1, 8), ("vecmix", 1, 6),
+              ("azi3d", 1, 7), ("levtrig", 1, 7), ("levvec", 1, 6)],
+    "thorough": [("polar", 4), ("intersection", 3), ("resection", 3), ("traverse", 2), ("polar2", 2), ("coords", 2),
+                 ("levelling", 1), ("levelling3", 1), ("vectors", 1), ("vectors1", 1), ("polar3d", 1), ("polar3d-ih", 2),
                  ("polar3d-ihmix", 1), ("polar3d-ihneg", 1), ("polar3d-ihpos", 1), ("free3d", 1), ("free3d-ihneg", 1),
                  ("free3d-ihpos", 1), ("tower3d", 1), ("tower3d-ihneg", 1), ("tower3d-ihpos", 1), ("towerst-ihneg", 1),
-                 ("towerst-ihpos", 1), ("trig3d", 2), ("trig3d-ih", 2), ("chain3d", 2), ("traverse3", 2), ("vecmix", 2)],
+                 ("towerst-ihpos", 1), ("trig3d", 1), ("trig3d-ih", 2), ("chain3d", 1), ("traverse3", 1), ("vecmix", 1),
+                 ("azi3d", 2), ("levtrig", 2), ("levvec", 1)],
 }
 
 
@@ -161,6 +181,9 @@ def heights(t, j):
     if t["dim"] == 1:
         zl = (0, 10, 30, 20, 40)
         return dict((r[0], zl[(i + j) % 5] + (3 * i if i > 2 else 0)) for i, r in enumerate(roles))
+    if t.get("zrule") == "chain":
+        zl = (0, 10, 30, 20, 40)
+        return dict((r[0], zl[(i + j) % 5]) for i, r in enumerate(roles))
     if t.get("zrule") == "tower":
         lo = (0, 10); fi = 0
         for r in roles:
